@@ -129,6 +129,12 @@ func (r *RunAssetEnv) IssueAssetTx(sender, receiver common.Address, txHash commo
 		if err == types.ErrEquityNotExist { // 未拥有过此类资产
 			equity.Equity = issueAsset.Amount
 		} else { // 已经拥有过此资产,资产余额则相加
+			// the record under this id can have been made by a replenish of another asset (any issuer
+			// may replenish any id); adding to it would relabel those units as units of this asset
+			if oldAssetEquity.AssetCode != assetCode {
+				log.Errorf("AssetCode not equal: issued assetCode = %s, the receiver's record = %s. ", assetCode.String(), oldAssetEquity.AssetCode.String())
+				return ErrNotEqualAssetCode
+			}
 			equity.Equity = new(big.Int).Add(issueAsset.Amount, oldAssetEquity.Equity)
 		}
 
